@@ -39,3 +39,50 @@ pub fn range_diff(
         RangeDiffStatus::NoRUVOverlap => RangeDiff::NoRUVOverlap,
     }
 }
+
+use crate::be::BackendTransaction;
+use crate::prelude::*;
+use crate::repl::ruv::ReplicationUpdateVectorTransaction;
+
+/// Complete RUV ranges of this replica (server uuid -> [min,max]).
+pub fn current_ruv_range<'a, T: QueryServerTransaction<'a>>(
+    txn: &mut T,
+) -> Result<BTreeMap<Uuid, ReplCidRange>, OperationError>
+where
+    T::BackendTransactionType: BackendTransaction,
+{
+    txn.get_be_txn().get_ruv().current_ruv_range()
+}
+
+/// RUV ranges as the supplier would present them (filtered by the trim cid).
+pub fn filtered_ruv_range(
+    txn: &mut QueryServerReadTransaction<'_>,
+) -> Result<BTreeMap<Uuid, ReplCidRange>, OperationError> {
+    let trim_cid = txn.trim_cid().clone();
+    txn.get_be_txn().get_ruv().filter_ruv_range(&trim_cid)
+}
+
+/// Every cid present in the RUV.
+pub fn ruv_cids<'a, T: QueryServerTransaction<'a>>(txn: &mut T) -> Vec<Cid>
+where
+    T::BackendTransactionType: BackendTransaction,
+{
+    txn.get_be_txn()
+        .get_ruv()
+        .ruv_snapshot()
+        .keys()
+        .cloned()
+        .collect()
+}
+
+pub fn server_uuid(txn: &QueryServerWriteTransaction<'_>) -> Uuid {
+    txn.get_server_uuid()
+}
+
+pub fn txn_cid(txn: &QueryServerWriteTransaction<'_>) -> Cid {
+    txn.get_txn_cid().clone()
+}
+
+pub fn trim_cid_read(txn: &QueryServerReadTransaction<'_>) -> Cid {
+    txn.trim_cid().clone()
+}
